@@ -164,7 +164,7 @@ func init() {
 		Floor: 50,
 		Bound: func(tier string) string {
 			k, e := coreK(tier)
-			return fmt.Sprintf("k=%d focus units, %d skeletons (depth ≤3), %d elements per slice, all visit orders, both modes", k, len(coreSkeletons(tier)), e)
+			return thoroughPrefix(tier) + fmt.Sprintf("k=%d focus units, %d skeletons (depth ≤3), %d elements per slice, all visit orders, both modes", k, len(coreSkeletons(tier)), e)
 		},
 		Assumptions: []string{
 			"reference model: PostTransforms run at node exit in declaration order only if the execution has no issue at that moment; first error stops the node's remaining PostTransforms and is reported at the node's path; a returned *ZogIssue is reported (wrapped by struct Parse, as is elsewhere)",
